@@ -14,7 +14,7 @@ from .ctx import CTX, OutOfSubset, PathEnd
 from .sym import (SInt, SBool, SStr, SRef, SBV, SReal, PyRaise, mk_int, mk_bool, mk_str, _zint, _zbool, zstr,
                   is_sym, ite)
 from .values import (Opaque, AbstractSeq, OneShotIter, EnumMember, FuncVal, BoundMethod, PropertyVal, HostFn, HostModule, ClassVal, VObj,
-                     RangeVal, IterVal, VDict, VSet, VList, GhostVal, kind_of_value, _elem_wrap, _elem_unwrap)
+                     RangeVal, IterVal, VDict, VSet, VList, GhostVal, PointwiseSeq, kind_of_value, _elem_wrap, _elem_unwrap)
 
 ITERABLE = HostFn(lambda: None, "collections.abc.Iterable")
 SEQUENCE = HostFn(lambda: None, "collections.abc.Sequence")
@@ -50,9 +50,10 @@ def py_isinstance(interp, v, T):
         if cb is not None:
             T2 = getattr(T, "pytype", None) or T
             if isinstance(T2, ClassVal):
-                names = {T2.name}
-                # every modelled subclass of T2 counts as well
                 return cb(v, T2)
+            pt = CTX.ghost.get("sref_pytype")
+            if pt is not None and isinstance(T2, type):
+                return pt(v, T2)
             return False
         classes = CTX.ghost.get("sref_classes")
         if classes is None:
@@ -241,6 +242,8 @@ def _list(interp, args, kwargs):
     if not args:
         return VList([])
     v = args[0]
+    if isinstance(v, PointwiseSeq):
+        return v.pv_copy()
     if isinstance(v, OneShotIter):
         return v.take().snapshot()
     if isinstance(v, VList):
@@ -334,6 +337,23 @@ def _sum(interp, args, kwargs):
     items = interp.iterate(args[0])
     if items is None:
         start = args[1] if len(args) > 1 else kwargs.get("start", 0)
+        src = args[0]
+        if isinstance(src, PointwiseSeq) and isinstance(start, VList) and start.is_concrete() and not start.items and CTX.mode == "sym":
+            # sum([[..c items..] for ...], []) : flattening of fixed-size lists
+            k = z3.Int(CTX.fresh_name("fk"))
+            n = _zint(src.pv_len())
+            CTX.push_scope(z3.And(k >= 0, k < n))
+            try:
+                if CTX.solver.check() == z3.unsat:
+                    return VList([])
+                probe = src.fn(mk_int(k))
+            finally:
+                CTX.pop_scope()
+            if isinstance(probe, VList) and probe.is_concrete():
+                c = len(probe.items)
+                if c == 0:
+                    return VList([])
+                return PointwiseSeq(z3.simplify(n * c), lambda j: src.fn(j // c).get(j % c), "flatten")
         if isinstance(start, VList) and isinstance(args[0], (VList, Opaque, AbstractSeq)):
             r = VList([])
             r.havoc("ref")   # concatenation of an unknown number of lists
@@ -506,7 +526,7 @@ def _iter(interp, args, kwargs):
         return v
     items = interp.iterate(v)
     if items is None:
-        if isinstance(v, (VList, Opaque, AbstractSeq)):
+        if isinstance(v, (VList, Opaque, AbstractSeq, GhostVal)):
             return v  # symbolic list / unknown iterable: iteration handled by the loop protocol
         raise OutOfSubset("iter() of symbolic-length iterable")
     return IterVal(items)
